@@ -6,7 +6,7 @@ from vf.inputs import Inputs, term, same
 from vf.explore import cur
 from vf.effects import Patch, note
 from vf import logic as L
-from contracts import harness as H, c30
+from contracts import harness as H, c30, c05_history as HI
 from pony import orm, options
 from pony.orm import core, decompiling
 from pony.utils import utils as putils
@@ -17,7 +17,7 @@ META = dict(
                 'the lookup key, and a hit is returned untouched; raw-SQL caches proved on a symbolic statement text (shared with C30)',
     trusted_base=['recording dicts stand for the module / database level caches', 'translator.construct_sql_ast and provider.ast2sql are recording stubs in the '
                   '_construct_sql_and_arguments contract (what they read beyond their arguments is the translator state, which query._key identifies)'],
-    assumptions=['whole-history transparency (sequences of queries with in-session modifications) is NOT claimed: only the per-call key soundness',
+    assumptions=['whole-history transparency (sequences of queries with in-session modifications) is covered only by the BOUNDED warm-vs-cold differential (c05_history); proved: the per-call key soundness',
                  '_get_translator: <= 2 fixed parameter values (pointwise check; BOUNDED)'],
 )
 RecordingDict = c30.RecordingDict
@@ -246,4 +246,7 @@ CONTRACTS = [c for c in c30.CONTRACTS if c.id in ('adapt_sql.cache', 'parse_raw_
              [('keyed_by_live_code_object_identity', _dc_spec)]),
     Contract('string2ast.cache', 'pony.orm.core:string2ast', [dict(src=s, hit=h) for s in ('x.a + 1', 'a if b else c', ' x.a + 1 ', 'x.a + 1\n') for h in (False, True)], _s2a_case,
              [('stored_under_the_source_text', _s2a_spec)]),
+    Contract('warm_vs_cold_histories', ['pony.orm.asttranslation:create_extractors', 'pony.orm.core:Query._actual_fetch', 'pony.orm.core:QueryResult', 'pony.orm.core:SessionCache.flush',
+                                        'pony.orm.core:Query._get_translator', 'pony.orm.core:extract_vars', 'pony.orm.core:Database._exec_raw_sql'],
+             HI.configs, HI.case, [('warm_trace_equals_cold_trace', HI.spec)], level='bounded', bound=HI.BOUND_Q + ' (thorough: ' + HI.BOUND_T + ')'),
 ]
